@@ -23,17 +23,29 @@ type Taint struct {
 	Dyn func(call ssa.CallInstruction) []*ssa.Function
 	// StopField: do not propagate through this field (named exception).
 	StopField func(f *types.Var) bool
+	// Block, when set, stops propagation from v into the user instruction
+	// (sanitisation by a dominating check).
+	Block func(v ssa.Value, user ssa.Instruction) bool
+	// ExternalArgs: an external call with a tainted argument also taints its
+	// pointer/slice/map/interface arguments and receiver (decoders, writers).
+	ExternalArgs bool
+	// KeysTaintMaps: a tainted key taints the whole map (off: only values do).
+	KeysTaintMaps bool
 	// Filter, when set, restricts taint to values for which it returns true
 	// (e.g. only values whose type can hold an *os.File).
 	Filter func(v ssa.Value) bool
 	// Scope limits the functions analysed (nil = all repository functions).
 	Scope func(fn *ssa.Function) bool
 
+	// FieldSensitive: a tainted pointer/struct value taints its fields only when
+	// it is "deep" tainted (it was filled by a decoder / external writer).
+	FieldSensitive bool
+	deep    map[ssa.Value]bool
 	vals    map[ssa.Value]bool
 	from    map[ssa.Value]ssa.Value // provenance for path reconstruction
 	fields  map[*types.Var]ssa.Value
 	globals map[*ssa.Global]ssa.Value
-	rets    map[*ssa.Function]ssa.Value // function whose results are tainted
+	rets    map[*ssa.Function]map[int]ssa.Value // tainted result indices per function
 	work    []ssa.Value
 
 	fieldLoads  map[*types.Var][]ssa.Value  // FieldAddr / Field instructions per field
@@ -48,10 +60,11 @@ func (t *Taint) init() {
 	}
 	t.inited = true
 	t.vals = map[ssa.Value]bool{}
+	t.deep = map[ssa.Value]bool{}
 	t.from = map[ssa.Value]ssa.Value{}
 	t.fields = map[*types.Var]ssa.Value{}
 	t.globals = map[*ssa.Global]ssa.Value{}
-	t.rets = map[*ssa.Function]ssa.Value{}
+	t.rets = map[*ssa.Function]map[int]ssa.Value{}
 	t.fieldLoads = map[*types.Var][]ssa.Value{}
 	t.globalLoads = map[*ssa.Global][]ssa.Value{}
 	t.callers = t.C.StaticCallers()
@@ -133,6 +146,31 @@ func (t *Taint) AddField(f *types.Var, from ssa.Value) {
 	}
 }
 
+// AddDeep marks v tainted together with everything reachable from it
+// (fields, elements): used for decode targets.
+func (t *Taint) AddDeep(v, from ssa.Value) {
+	t.init()
+	if v == nil {
+		return
+	}
+	if !t.deep[v] {
+		t.deep[v] = true
+		if t.vals[v] {
+			t.work = append(t.work, v) // revisit with the stronger mark
+		}
+	}
+	t.Add(v, from)
+}
+
+// AddDeepIf adds v, inheriting the deep mark of from.
+func (t *Taint) AddDeepIf(v, from ssa.Value) {
+	if t.deep[from] {
+		t.AddDeep(v, from)
+	} else {
+		t.Add(v, from)
+	}
+}
+
 // Has reports whether v is tainted.
 func (t *Taint) Has(v ssa.Value) bool { return t.vals[v] }
 
@@ -211,49 +249,54 @@ func (t *Taint) step(v ssa.Value) {
 		if !t.inScope(in.Parent()) {
 			continue
 		}
+		if t.Block != nil && t.Block(v, in) {
+			continue
+		}
 		switch x := in.(type) {
 		case *ssa.Phi, *ssa.Convert, *ssa.ChangeType, *ssa.ChangeInterface, *ssa.MakeInterface, *ssa.Slice, *ssa.SliceToArrayPointer:
-			t.Add(x.(ssa.Value), v)
+			t.AddDeepIf(x.(ssa.Value), v)
 		case *ssa.TypeAssert:
-			t.Add(x, v)
+			t.AddDeepIf(x, v)
 		case *ssa.Extract:
-			t.Add(x, v)
+			t.AddDeepIf(x, v)
 		case *ssa.BinOp:
 			if _, ok := x.Type().Underlying().(*types.Basic); ok && x.Type().Underlying().(*types.Basic).Info()&types.IsString != 0 {
 				t.Add(x, v)
 			}
 		case *ssa.UnOp:
 			// load through tainted address, or receive from tainted channel
-			t.Add(x, v)
+			t.AddDeepIf(x, v)
 		case *ssa.Field:
 			// field of a tainted struct value
-			t.Add(x, v)
+			if !t.FieldSensitive || t.deep[v] {
+				t.AddDeepIf(x, v)
+			}
 		case *ssa.FieldAddr:
-			if x.X == v {
-				t.Add(x, v)
+			if x.X == v && (!t.FieldSensitive || t.deep[v]) {
+				t.AddDeepIf(x, v)
 			}
 		case *ssa.Index:
 			if x.X == v {
-				t.Add(x, v)
+				t.AddDeepIf(x, v)
 			}
 		case *ssa.IndexAddr:
 			if x.X == v {
-				t.Add(x, v)
+				t.AddDeepIf(x, v)
 			}
 		case *ssa.Lookup:
 			if x.X == v {
-				t.Add(x, v)
+				t.AddDeepIf(x, v)
 			}
 		case *ssa.Range:
-			t.Add(x, v)
+			t.AddDeepIf(x, v)
 		case *ssa.Next:
-			t.Add(x, v)
+			t.AddDeepIf(x, v)
 		case *ssa.Store:
 			if x.Val == v {
 				t.taintAddr(x.Addr, v)
 			}
 		case *ssa.MapUpdate:
-			if x.Value == v || x.Key == v {
+			if x.Value == v || (t.KeysTaintMaps && x.Key == v) {
 				t.Add(x.Map, v)
 				t.taintAddrOfValue(x.Map, v)
 			}
@@ -271,12 +314,19 @@ func (t *Taint) step(v ssa.Value) {
 			}
 		case *ssa.Return:
 			fn := x.Parent()
-			if _, ok := t.rets[fn]; !ok {
-				t.rets[fn] = v
+			for i, res := range x.Results {
+				if res != v {
+					continue
+				}
+				if t.rets[fn] == nil {
+					t.rets[fn] = map[int]ssa.Value{}
+				}
+				if _, ok := t.rets[fn][i]; ok {
+					continue
+				}
+				t.rets[fn][i] = v
 				for _, site := range t.callers[fn] {
-					if val := site.Value(); val != nil {
-						t.Add(val, v)
-					}
+					t.addResult(site, len(x.Results), i, v)
 				}
 			}
 		case ssa.CallInstruction:
@@ -352,13 +402,15 @@ func (t *Taint) call(ci ssa.CallInstruction, v ssa.Value) {
 				// receiver is param 0 of the concrete method
 			}
 			if pi < len(callee.Params) {
-				t.Add(callee.Params[pi], v)
+				if pi < len(args)+off && t.deep[argAt(cc, pi)] {
+					t.AddDeep(callee.Params[pi], v)
+				} else {
+					t.Add(callee.Params[pi], v)
+				}
 			}
 		}
-		if rv, ok := t.rets[callee]; ok {
-			if val := ci.Value(); val != nil {
-				t.Add(val, rv)
-			}
+		for i, rv := range t.rets[callee] {
+			t.addResult(ci, callee.Signature.Results().Len(), i, rv)
 		}
 	}
 	if !followed {
@@ -366,8 +418,66 @@ func (t *Taint) call(ci ssa.CallInstruction, v ssa.Value) {
 		if val := ci.Value(); val != nil {
 			t.Add(val, v)
 		}
+		if t.ExternalArgs {
+			for _, a := range args {
+				if a == v || t.vals[a] {
+					continue
+				}
+				// an interface wrapping a pointer (json.Unmarshal(data, &x)): the pointee is written
+				if mi, ok := a.(*ssa.MakeInterface); ok {
+					if _, isPtr := mi.X.Type().Underlying().(*types.Pointer); isPtr {
+						t.taintAddr(mi.X, v)
+						t.AddDeep(mi.X, v)
+					}
+				}
+				switch a.Type().Underlying().(type) {
+				case *types.Pointer:
+					t.taintAddr(a, v)
+					t.AddDeep(a, v)
+				case *types.Slice, *types.Map, *types.Interface:
+					t.AddDeep(a, v)
+					t.taintAddrOfValue(a, v)
+				}
+			}
+			if cc.IsInvoke() && cc.Value != v {
+				t.Add(cc.Value, v)
+			}
+		}
 	}
 }
 
 // Values returns all tainted values.
 func (t *Taint) Values() map[ssa.Value]bool { return t.vals }
+
+func argAt(cc *ssa.CallCommon, i int) ssa.Value {
+	if cc.IsInvoke() {
+		if i == 0 {
+			return cc.Value
+		}
+		i--
+	}
+	if i < len(cc.Args) {
+		return cc.Args[i]
+	}
+	return nil
+}
+
+// addResult taints result i of the call at site (the call value itself for
+// single-result functions, the matching Extract otherwise).
+func (t *Taint) addResult(site ssa.CallInstruction, nres, i int, from ssa.Value) {
+	val := site.Value()
+	if val == nil {
+		return
+	}
+	if nres <= 1 {
+		t.AddDeepIf(val, from)
+		return
+	}
+	if refs := val.Referrers(); refs != nil {
+		for _, r := range *refs {
+			if ex, ok := r.(*ssa.Extract); ok && ex.Index == i {
+				t.AddDeepIf(ex, from)
+			}
+		}
+	}
+}
